@@ -17,6 +17,8 @@ type constEnv struct {
 	vars map[types.Object]constant.Value
 	// leaf, when set, may give a value to an arbitrary sub-expression (e.g. every call `x.Notation()`)
 	leaf func(f *Fn, e ast.Expr) (constant.Value, bool)
+	// trace, when set, is told what the abstract run of evalBody passes: ("panic", <argument>) and ("assign", <target>)
+	trace func(kind, what string)
 }
 
 func (ev *constEnv) eval(f *Fn, e ast.Expr, depth int) (constant.Value, bool) {
@@ -254,7 +256,25 @@ func (ev *constEnv) evalBody(f *Fn, list []ast.Stmt, out map[string]bool, depth 
 			if allTerm {
 				return true
 			}
-		case *ast.AssignStmt, *ast.DeclStmt, *ast.ExprStmt, *ast.IncDecStmt:
+		case *ast.ExprStmt:
+			if call, ok := ast.Unparen(x.X).(*ast.CallExpr); ok {
+				if id, ok := call.Fun.(*ast.Ident); ok && id.Name == "panic" {
+					if _, isB := f.Pkg.TypesInfo.Uses[id].(*types.Builtin); isB {
+						if ev.trace != nil {
+							ev.trace("panic", types.ExprString(call))
+						}
+						out["panic"] = true
+						return true
+					}
+				}
+			}
+		case *ast.AssignStmt:
+			if ev.trace != nil {
+				for _, l := range x.Lhs {
+					ev.trace("assign", types.ExprString(l))
+				}
+			}
+		case *ast.DeclStmt, *ast.IncDecStmt:
 			// no effect on the constants we follow
 		case *ast.BlockStmt:
 			if ev.evalBody(f, x.List, out, depth) {
